@@ -33,20 +33,28 @@ MODELS = {
     "MC_ready": ("MC_core", cluster([1, 2], [1, 2], [])),
     "MC_single": ("MC_core", cluster([1, 2], [1], [2])),
     "MC_prevote": ("MC_core", cluster([1, 2, 3], [1, 2, 3], [], pre_vote=True, check_quorum=True)),
+    "MC_transfer": ("MC_core", cluster([1, 2, 3], [1, 2, 3], [])),
+    "MC_conf": ("MC_core", cluster([1, 2, 3], [1, 2], [])),
+    "MC_read": ("MC_core", cluster([1, 2, 3], [1, 2, 3], [])),
+    "MC_snap": ("MC_core", cluster([1, 2, 3], [1, 2, 3], [])),
 }
 # models whose quick configuration is small enough for the quick tier; the rest run in the thorough tier only
-QUICK = {"MC_elect", "MC_repl", "MC_ready", "MC_single", "MC_prevote"}
+QUICK = {"MC_elect", "MC_repl", "MC_ready", "MC_single", "MC_prevote", "MC_transfer", "MC_conf", "MC_read", "MC_snap"}
 
 CONFIGS = {
     "C01": ["MC_repl", "MC_change", "MC_single"],
-    "C02": ["MC_elect", "MC_prevote", "MC_change"],
+    "C02": ["MC_elect", "MC_prevote", "MC_transfer", "MC_change"],
     "C03": ["MC_elect", "MC_change", "MC_prevote"],
     "C04": ["MC_repl", "MC_ready", "MC_change"],
     "C05": ["MC_repl", "MC_change", "MC_single"],
     "C06": ["MC_ready", "MC_single", "MC_elect"],
     "C07": ["MC_ready", "MC_single", "MC_repl"],
-    "C13": ["MC_repl"],
+    "C08": ["MC_read"],
+    "C09": ["MC_conf"],
+    "C13": ["MC_repl", "MC_snap"],
+    "C15": ["MC_snap"],
     "C16": ["MC_prevote"],
+    "C17": ["MC_transfer"],
     "C20": ["MC_ready", "MC_single", "MC_elect", "MC_change"],
 }
 
